@@ -111,6 +111,18 @@ class Sched:
         self.tag = 0
         self.ts = 1
 
+    def next_ts(self):
+        """ts_nanos of the next poll answer: whatever the service says — it need not grow (the agent's configuration
+        logic must not depend on it)"""
+        r = self.rng.random()
+        if r < 0.5:
+            self.ts += self.rng.randint(1, 1000)
+        elif r < 0.8:
+            self.ts = self.rng.randint(0, max(self.ts - 1, 0))
+        elif r < 0.9:
+            self.ts = 0
+        return self.ts
+
     def fresh_tag(self, prefix):
         self.tag += 1
         return f'{prefix}{self.tag}'
@@ -143,21 +155,18 @@ class Sched:
 
     def update(self, n=None, bad=0.0, hash_=None):
         n = self.rng.randint(0, 3) if n is None else n
-        self.ts += self.rng.randint(1, 1000)
-        self.emit({'op': 'poll', 'nc': False, 'rt': 1, 'ts': self.ts, 'hash': hash_ or self.fresh_tag('h'),
+        self.emit({'op': 'poll', 'nc': False, 'rt': 1, 'ts': self.next_ts(), 'hash': hash_ or self.fresh_tag('h'),
                    'tps': [self.tp('s', bad) for _ in range(n)]})
         self.queued += 1
 
     def nochange(self):
-        self.ts += self.rng.randint(1, 1000)
         # a NO_CHANGE answer may carry anything else: it must be ignored
-        self.emit({'op': 'poll', 'nc': True, 'rt': 0, 'ts': self.ts, 'hash': self.rng.choice(['', 'stray']),
+        self.emit({'op': 'poll', 'nc': True, 'rt': 0, 'ts': self.next_ts(), 'hash': self.rng.choice(['', 'stray']),
                    'tps': [self.tp('x')] if self.rng.random() < 0.2 else []})
 
     def unknown(self):
         """an answer whose response_type is outside the enum; it may carry anything"""
-        self.ts += self.rng.randint(1, 1000)
-        self.emit({'op': 'poll', 'nc': False, 'rt': self.rng.choice([2, 5, 17]), 'ts': self.ts,
+        self.emit({'op': 'poll', 'nc': False, 'rt': self.rng.choice([2, 5, 17]), 'ts': self.next_ts(),
                    'hash': self.rng.choice(['', self.fresh_tag('u')]),
                    'tps': [self.tp('u') for _ in range(self.rng.randint(0, 2))]})
 
@@ -165,10 +174,9 @@ class Sched:
         self.emit({'op': 'pollFail', 'base': False, 'how': self.rng.choice(['rpc', 'garbage'])})
 
     def malformed(self):
-        self.ts += 1
         tps = [self.tp('m') for _ in range(self.rng.randint(1, 3))]
         self.rng.choice(tps)['conv'] = False
-        self.emit({'op': 'poll', 'nc': False, 'rt': 1, 'ts': self.ts, 'hash': self.fresh_tag('bad'), 'tps': tps})
+        self.emit({'op': 'poll', 'nc': False, 'rt': 1, 'ts': self.next_ts(), 'hash': self.fresh_tag('bad'), 'tps': tps})
 
     def apply(self, i=None):
         """one whole task, atomically (only when nobody holds a value)"""
